@@ -309,9 +309,44 @@ func (w *world) deviceVsys(name string) gVsys {
 	return v
 }
 
+// breakCycles removes group members that close a cycle of address-groups: the real planner
+// recurses through nested groups without a visited set and overflows its stack on a cycle
+// (fatal, not recoverable in-process; such groups cannot exist on a device).
+func breakCycles(v *gVsys) {
+	idx := map[string]int{}
+	for i, g := range v.Groups {
+		idx[g.Name] = i
+	}
+	state := map[int]int{} // 1 = on path, 2 = done
+	var visit func(i int)
+	visit = func(i int) {
+		state[i] = 1
+		var keep []string
+		for _, m := range v.Groups[i].Members {
+			if j, ok := idx[m]; ok {
+				if state[j] == 1 {
+					continue // would close a cycle
+				}
+				if state[j] == 0 {
+					visit(j)
+				}
+			}
+			keep = append(keep, m)
+		}
+		v.Groups[i].Members = keep
+		state[i] = 2
+	}
+	for i := range v.Groups {
+		if state[i] == 0 {
+			visit(i)
+		}
+	}
+}
+
 // complete defines exactly the referenced objects (plus `extra` unreferenced ones), taking
 // definitions from `prev` where present (so that values survive) and from the pools otherwise.
 func (w *world) complete(v *gVsys, extra int) {
+	breakCycles(v)
 	usedA := map[string]bool{}
 	usedS := map[string]bool{}
 	grp := map[string]*gGrp{}
